@@ -5,7 +5,7 @@ META = {
     "engine": "math", "level": "exploration", "design_ref": "DESIGN.md §4.1 C25",
     "technique": "ASan+UBSan+assert harnesses on the homogenisation headers; results judged against textbook closed forms and against the integral definition of the Hill tensor evaluated by self-converging quadrature in long double",
     "text": "2-5 phase isotropic composites (moduli over 1e+-4 contrast, fractions on the simplex incl. edges) go through computeVoigtStiffness / computeReussStiffness / computeIsotropicHashinShtrikmanBounds (d=2,3): values against the arithmetic/harmonic means and the Hashin-Shtrikman (1963) two-phase formulas, ordering Reuss <= HS- <= HS+ <= Voigt, Mori-Tanaka with the softest/stiffest matrix = HS-/HS+ (two-phase API and N-phase ParticulateMicrostructure against the Walpole form). Eshelby, Hill and localisation tensors of spheres, spheroids, ellipsoids (aspect ratios up to 10 judged in value, up to 1e3 structurally) and elliptic cylinders are compared with Eshelby's sphere, with P = 1/(4 pi) int Gamma(xi) dS computed independently and with A = [I + P:(Ci-C0)]^-1; sphere limits, argument-permutation and axis-relabelling symmetries, P = S:C0^-1, major symmetry. Dilute / Mori-Tanaka schemes (spheres, oriented, isotropic and transverse-isotropic distributions) against C0 + f (Ci-C0):<A>[:((1-f)I+f<A>)^-1] with independently averaged A; f = 0 gives the matrix; for computeDilute / computeMoriTanaka / computeSelfConsistent on random microstructures the returned localisation tensors average to the identity (MT, SC) and reproduce the returned stiffness. computeAnisotropicHillTensor (10 subdivisions) against the same integral for isotropic and rotated orthotropic media. Held on the cases executed; nothing is claimed beyond them.",
-    "note": "Trusted: harness/material/{eshelby_ref,mat_ref}.hxx (quadrature self-checked against Eshelby's sphere in every run), g++, sanitizer runtimes. Tolerances: 512 eps x conditioning (contrast, 1/gap^2 of the semi-axes) with a 1e-9 floor for the elliptic-integral closed forms; 16 x gap below the documented switch to the degenerate formula; 1e-3 for the numerically integrated anisotropic Hill tensor (accuracy not documented).",
+    "note": "Trusted: harness/material/{eshelby_ref,mat_ref}.hxx (quadrature self-checked against Eshelby's sphere in every run), g++, sanitizer runtimes. Tolerances: 512 eps x conditioning (contrast, 1/gap^2 of the semi-axes) with a 1e-9 floor for the elliptic-integral closed forms; 48 x gap below the documented switch to the degenerate formula; 1e-3 for the numerically integrated anisotropic Hill tensor (accuracy not documented).",
 }
 
 H = vfcore.VERIF / "harness/material"
